@@ -200,4 +200,7 @@ def run(ctx):
     rule_accumulation(ctx)
     rule_deep_copy(ctx)
     serial.rule_tree_predicate(ctx, 'R17.6')
+    serial.rule_R05_2(ctx)                 # copies and == go through the descriptor table: a row designating another member makes a field invisible to both
+    from . import c06
+    c06.rule_cadence(ctx)                  # R06.5: the state a snapshot stores equals the live state (deadline advanced before the write)
     ctx.not_decided.append('interleavings of edits on a copy and its source; fields that differ only in padding bytes')
